@@ -23,6 +23,12 @@ POL = {  # phase-matching type -> (pump, signal, idler), from the names e -> e o
 IMPORTS = ("From SpdVerif Require Import Base.Rx Base.Vec3 Gen.Idler Model.Idler Proofs.C03_base Proofs.C03_idler Proofs.C03_tac.\n")
 
 
+def unknown_failing_input(ctx):
+    """a violation with a concrete failing input that is NOT a listed known finding (known findings must not switch the search off)"""
+    fs = load_findings()
+    return any(v["found_input"] and not match_finding(v, fs, ctx.prop) for v in ctx.violations)
+
+
 def fr(h):
     return frac_of_hex(h)
 
@@ -361,12 +367,12 @@ def run(ctx):
         correspondence(ctx, cases[:55] if ctx.tier == "quick" else cases[:330])
     else:
         ctx.note("correspondence cases skipped: generated model did not compile")
-    if (not proved or ctx.case_failures) and not any(v["found_input"] for v in ctx.violations):
+    if (not proved or ctx.case_failures) and not unknown_failing_input(ctx):
         ctx.log("S5 deep search for a failing input (proof obligations / correspondence are broken)")
         for k in range(3):
             obs2 = run_harness(ctx, binp, ["c03", ctx.seed + 1000 + k, 2200])
             oracle(ctx, obs2)
-            if any(v["found_input"] for v in ctx.violations):
+            if unknown_failing_input(ctx):
                 break
     ctx.cov["rule"] = ("case i: crystal = i mod 11, phase-matching type = (i div 11) mod 5 (all 55 combinations every 55 cases); random crystal "
                        "orientation (theta in [0, pi/2] incl. the ends, phi in [0, 2 pi)), temperature, length; pump wavelength log-uniform in the lower "
